@@ -81,7 +81,7 @@ def rule_a(repo, chk):
         for dn in ('inference_state_method_cache', 'inference_state_function_cache'):
             d = d or decorator_node(f, dn)
         has_default = isinstance(d, ast.Call) and (d.args or kwarg(d, 'default') is not None)
-        n += bool(has_default)
+        n += 1
         chk.ob('C15.a', has_default, f, '%s is memoised WITH a default, so re-entry sees the default (%s)' % (q, why),
                'decorator: %s' % (short(d) if d is not None else decorators(f)), key='memo-default|%s:%s' % (m, q))
     chk.floor('C15.a', n, 14, '(memo-with-default entry points)')
@@ -95,7 +95,7 @@ def rule_a(repo, chk):
         a1 = c.args[1] if len(c.args) > 1 else None
         plain = isinstance(a1, (ast.Name, ast.Attribute))
         ok = key in EXEC_ALLOWED and plain and norm(a1) == EXEC_ALLOWED[key]
-        k += ok
+        k += 1
         chk.ob('C15.a', ok, c, 'execution_allowed in %s is keyed on the syntax node itself (`%s`): the same statement reached through a '
                'freshly created context still counts as re-entry' % (key[1], short(a1)),
                'expected key %s' % EXEC_ALLOWED.get(key, '(unlisted call site)'), key='execution_allowed|%s:%s' % key)
@@ -340,7 +340,7 @@ def rule_f(repo, chk):
     n = 0
     for key, (f, c) in sorted(found.items()):
         kind = RECURSIVE.get(key)
-        n += kind is not None
+        n += 1
         chk.ob('C15.f', kind is not None, c, 'recursive function %s is triaged (termination: %s)' % (key[1], kind or '?'),
                'UNLISTED direct recursion `%s`: state why it terminates' % short(c, 60), key='recursive|%s:%s' % key)
         if kind == 'S':
